@@ -884,6 +884,81 @@ def _tuple_repetition(func: ast.AST) -> int:
     return n
 
 
+def _single_element_updates(func: ast.AST) -> int:
+    """`s.update({e})` and `s |= {e}` (a set display with one element) are `s.add(e)`."""
+    n = 0
+    for blk in [b for node in [func] + list(_local_nodes(func)) for b in _blocks(node)]:
+        for j, st in enumerate(blk):
+            call = None
+            if isinstance(st, ast.Expr) and isinstance(st.value, ast.Call) and isinstance(st.value.func, ast.Attribute) and st.value.func.attr == "update" \
+                    and len(st.value.args) == 1 and not st.value.keywords and isinstance(st.value.args[0], ast.Set) and len(st.value.args[0].elts) == 1 \
+                    and not isinstance(st.value.args[0].elts[0], ast.Starred):
+                call = ast.Call(func=ast.Attribute(value=st.value.func.value, attr="add", ctx=ast.Load()), args=[st.value.args[0].elts[0]], keywords=[])
+            elif isinstance(st, ast.AugAssign) and isinstance(st.op, ast.BitOr) and isinstance(st.value, ast.Set) and len(st.value.elts) == 1 \
+                    and not isinstance(st.value.elts[0], ast.Starred) and isinstance(st.target, (ast.Name, ast.Attribute)):
+                tgt = _clone(st.target)
+                tgt.ctx = ast.Load()
+                call = ast.Call(func=ast.Attribute(value=tgt, attr="add", ctx=ast.Load()), args=[st.value.elts[0]], keywords=[])
+            if call is None:
+                continue
+            new = ast.Expr(value=call)
+            for x in ast.walk(new):
+                if not hasattr(x, "lineno"):
+                    ast.copy_location(x, st)
+            ast.copy_location(new, st)
+            ast.fix_missing_locations(new)
+            blk[j] = new
+            n += 1
+    return n
+
+
+METHOD_SIGNATURES: Dict[str, List[List[str]]] = {}
+
+
+def method_signatures(trees: List[ast.AST]) -> Dict[str, List[List[str]]]:
+    """Positional parameter names (without self / cls) of every method of the package, by method name."""
+    out: Dict[str, List[List[str]]] = {}
+    for t in trees:
+        for c in ast.walk(t):
+            if isinstance(c, ast.ClassDef):
+                for m in c.body:
+                    if isinstance(m, (ast.FunctionDef, ast.AsyncFunctionDef)) and m.args.vararg is None:
+                        decos = [ast.unparse(d) for d in m.decorator_list]
+                        ps = [a.arg for a in m.args.posonlyargs + m.args.args]
+                        if "staticmethod" not in decos:
+                            ps = ps[1:]
+                        out.setdefault(m.name, []).append(ps)
+    return out
+
+
+def _keywords_to_positional(func: ast.AST) -> int:
+    """`x.m(a=1, b=2)` is `x.m(1, 2)` when every method `m` of the package that has parameters a
+    and b has them at those positions: the positional form is the canonical one."""
+    n = 0
+    for c in list(_local_nodes(func)):
+        if not (isinstance(c, ast.Call) and isinstance(c.func, ast.Attribute) and c.keywords and not c.func.attr.startswith("__")):
+            continue
+        if any(k.arg is None for k in c.keywords) or any(isinstance(a, ast.Starred) for a in c.args):
+            continue
+        names = {k.arg for k in c.keywords}
+        cands = [sig for sig in METHOD_SIGNATURES.get(c.func.attr, []) if names <= set(sig)]
+        if not cands:
+            continue
+        while True:
+            j = len(c.args)
+            nxt = {sig[j] if j < len(sig) else None for sig in cands}
+            if len(nxt) != 1 or None in nxt:
+                break
+            nm = next(iter(nxt))
+            kw = [k for k in c.keywords if k.arg == nm]
+            if not kw:
+                break
+            c.args.append(kw[0].value)
+            c.keywords.remove(kw[0])
+            n += 1
+    return n
+
+
 def canonicalise(tree: ast.AST, props: Set[str]) -> int:
     total = 0
     for c in ast.walk(tree):
@@ -894,6 +969,8 @@ def canonicalise(tree: ast.AST, props: Set[str]) -> int:
     for n in ast.walk(tree):
         if isinstance(n, (ast.FunctionDef, ast.AsyncFunctionDef)):
             cls_name = getattr(n, "_canon_cls", None)
+            total += _single_element_updates(n)
+            total += _keywords_to_positional(n)
             total += _map_arguments(n)
             total += _fold_aliases(n, props)
             total += _propagate_pure_locals(n, props, cls_name)
